@@ -102,7 +102,7 @@ CLAIMED = {
     "C08": (
         "proof",
         "Coq proofs on the block model (thematic break markup/count) + whole-pipeline correspondence + verbatim-content oracle on the implementation",
-        "Theorems: an hr token's markup is its marker character repeated exactly as often as it occurs on the line (C08_hr_markup, C08_hr_count; the defect repaired in /repo is the counter-example of the old code). Verbatim preservation in general (code block / fence / html_block content = the source lines minus container prefix and indentation; markup/info of fences and headings; inline code and text pieces occur in the source) is decided each run on the implementation with an independent oracle incl. the exact fence-indentation rule under quotes-only or lists-only ancestors, over ~2000 (quick) generated documents; the correspondence ties model content/markup/info to the implementation's.",
+        "Theorems on the model, for EVERY state (any nesting, any table contents): getLines returns, line for line of the range, k spaces ++ src[first : end of line] where every dropped position holds a blank or lies in the container prefix, k <= 3 and k > 0 only directly after a dropped tab (C08_get_lines_verbatim); the code, fence and html_block rules set their content to exactly getLines over the lines of their map (C08_code_block_content, C08_fence_content_markup_info, C08_html_block_content); fence markup = the run of marker characters at the start of its line and info = the rest of that line (C08_fence_markup_is_marker_run); ATX heading markup = the run of 1-6 # the line starts with and the inline content a stripped slice behind it (C08_heading_markup); a code span has equal-length all-backtick opener and closer and holds the text between them with line feeds as spaces and the CommonMark padding strip (C08_code_span_content); an hr token's markup is its marker character repeated exactly as often as it occurs on the line (C08_hr_markup, C08_hr_count; the defect repaired in /repo is the counter-example of the old code). Not theorems: list / block quote markup, ordered-list start, that the closing backtick string is the FIRST of its length. Verbatim preservation as a whole is also decided each run on the implementation with an independent oracle incl. the exact fence-indentation rule under quotes-only or lists-only ancestors, over ~2000 (quick) generated documents; the correspondence ties model content/markup/info to the implementation's.",
         "Trusted: Coq kernel; block model tied by sampled correspondence; general verbatim law by exploration (partial).",
         "DESIGN.md §3 C08",
     ),
